@@ -14,7 +14,7 @@ LEVEL_TEXT = ("Exhaustive for all numbers 0..9999 x operand digits 0..9 x four o
               "state of the schoolbook algorithms is exercised); sampled for lengths up to 1 300 digits with carry/borrow chains "
               "of every length 0..20 and > 1000. The contracts also fire on the internal calls made by encode/decode.")
 LEVEL_NOTE = "Trusts Python's arbitrary-precision int and str(int)."
-PLAN = {"quick": dict(shards=17, budget=40), "thorough": dict(shards=17, budget=300)}
+PLAN = {"quick": dict(shards=17, budget=100), "thorough": dict(shards=17, budget=300)}
 SPECIAL_SHARD = True  # the last shard runs files of the repository's own suite in-process under the contracts
 EXHAUSTIVE = ["numbers 0..9999 x operands 0..9 x {add, sub, mul, div}"]
 RULE = ("icontract ensure on calculus_addition / _subtraction / _multiplication / _division: result is the canonical decimal "
